@@ -624,6 +624,38 @@ func (s *Sched) DeadlockSig() string {
 	return strings.Join(l, " | ")
 }
 
+// AwaitQuiescence blocks the calling (environment) thread until or() holds or every OTHER non-daemon thread is finished or
+// blocked. The caller is not enabled while anything else can run, so it adds no alternatives to the exploration.
+func AwaitQuiescence(or func() bool) {
+	if !S.Active {
+		return
+	}
+	if S.killed {
+		runtime.Goexit()
+	}
+	me := S.cur
+	evaluating := false
+	blockOp("await-quiescence", func() bool {
+		if or != nil && or() {
+			return true
+		}
+		if evaluating {
+			return false // another thread's AwaitQuiescence is asking about this one: it is waiting
+		}
+		evaluating = true
+		defer func() { evaluating = false }()
+		for _, t := range S.threads {
+			if t == me || t.done || t.daemon {
+				continue
+			}
+			if t.ready == nil || t.ready() {
+				return false
+			}
+		}
+		return true
+	})
+}
+
 // Quiescent reports whether no non-daemon thread other than the caller is ready (environment threads use it to evaluate
 // oracles that are only meaningful when the program has nothing left to do without the environment).
 func Quiescent() bool {
